@@ -2091,6 +2091,7 @@ impl TextResource {
             textseliters: Vec::new(),
             buffer: VecDeque::new(),
             drain_buffer: false,
+            seen: Vec::new(),
         }
     }
 }
@@ -2110,6 +2111,9 @@ pub struct FindTextSelectionsIter<'store> {
 
     // once bufferiter is set, we simply drain the buffer
     drain_buffer: bool,
+
+    /// results already returned, only used if the reference consists of multiple text selections (each may find the same result)
+    seen: Vec<TextSelectionHandle>,
 }
 
 impl<'store> Iterator for FindTextSelectionsIter<'store> {
@@ -2117,12 +2121,22 @@ impl<'store> Iterator for FindTextSelectionsIter<'store> {
 
     fn next(&mut self) -> Option<Self::Item> {
         loop {
-            if self.drain_buffer {
-                return self.buffer.pop_front();
+            let result = if self.drain_buffer {
+                self.buffer.pop_front()?
             } else if let Some(result) = self.next_textselection() {
                 //this will eventually set self.drain_buffer = true and trigger the stop condition once the buffer is empty
-                return Some(result);
+                result
+            } else {
+                continue;
+            };
+            if self.refset.len() > 1 {
+                //multiple reference selections may lead to the same result, return each only once
+                if self.seen.contains(&result) {
+                    continue;
+                }
+                self.seen.push(result);
             }
+            return Some(result);
         }
     }
 }
